@@ -6,7 +6,7 @@
    [den] is the definition-shaped one (axis mod rank, slices at offsets, take / stack, composition, indexed
    update).  Every statement is for an arbitrary carrier, tree depth and width, tensor rank and axis. *)
 From Coq Require Import List ZArith Bool.
-From FJ Require Import Model.Num Model.Tensor Model.Bij Proofs.TensorP Proofs.BijP Proofs.BijCor.
+From FJ Require Import Model.Num Model.Tensor Model.Bij Proofs.TensorP Proofs.TensorGet Proofs.BijP Proofs.BijCor.
 Import ListNotations.
 
 (* The main statement: on every well-constructed tree [sig_of b = Ok sg], every input of the declared shape
@@ -164,6 +164,47 @@ Theorem C08_merge_chains_same_partial : forall (A : Type) (O : NumOps A),
   forall (bs : list (bij A)) d x c, den O (merge_chains bs) d x c = den O (Chain bs) d x c.
 Proof. exact @merge_chains_same. Qed.
 Print Assumptions C08_merge_chains_same_partial.
+
+(* merge_chains terminates flat: no Chain is left among the children (any nesting depth). *)
+Theorem C08_merge_chains_flat : forall (A : Type) (bs : list (bij A)),
+  exists l, merge_chains bs = Chain l /\ existsb is_chain l = false.
+Proof. exact @merge_chains_flat. Qed.
+Print Assumptions C08_merge_chains_flat.
+
+(* The operations [den] is written with ARE jnp.take / slicing / jnp.concatenate / jnp.stack: entry by entry,
+   for tensors of any rank and any axis position [length pre]. *)
+Theorem C08_take_pointwise : forall (A : Type) pre n post (t : tensor A) i I1 I2,
+  has_shape (pre ++ n :: post) t = true -> length I1 = length pre ->
+  tget (tindex (length pre) i t) (I1 ++ I2) = tget t (I1 ++ i :: I2).
+Proof. exact @tget_tindex. Qed.
+Print Assumptions C08_take_pointwise.
+
+Theorem C08_slice_pointwise : forall (A : Type) pre n post (t : tensor A) a b j I1 I2,
+  has_shape (pre ++ n :: post) t = true -> length I1 = length pre ->
+  tget (tslice (length pre) a b t) (I1 ++ j :: I2) = if j <? b - a then tget t (I1 ++ (a + j) :: I2) else None.
+Proof. exact @tget_tslice. Qed.
+Print Assumptions C08_slice_pointwise.
+
+Theorem C08_concatenate_pointwise : forall (A : Type) pre n1 n2 post (t1 t2 t : tensor A) j I1 I2,
+  has_shape (pre ++ n1 :: post) t1 = true -> has_shape (pre ++ n2 :: post) t2 = true ->
+  tcat2 (length pre) t1 t2 = Some t -> length I1 = length pre ->
+  tget t (I1 ++ j :: I2) = if j <? n1 then tget t1 (I1 ++ j :: I2) else tget t2 (I1 ++ (j - n1) :: I2).
+Proof. exact @tget_tcat2. Qed.
+Print Assumptions C08_concatenate_pointwise.
+
+Theorem C08_stack_pointwise : forall (A : Type) pre post (ts : list (tensor A)) t j I1 I2,
+  Forall (fun u => has_shape (pre ++ post) u = true) ts -> tstack (length pre) ts = Some t ->
+  length I1 = length pre -> j < length ts ->
+  tget t (I1 ++ j :: I2) = tget (nth j ts dflt) (I1 ++ I2).
+Proof. exact @tget_tstack. Qed.
+Print Assumptions C08_stack_pointwise.
+
+(* numpy.array_split at the cumulative sizes yields the slices (offset_i, offset_i + size_i). *)
+Theorem C08_array_split_is_slices : forall (A : Type) k (sizes : list nat) (t : tensor A), sizes <> [] ->
+  array_split k (sumn sizes) (accumulate (removelast sizes)) t =
+  map (fun p => tslice k (fst p) (fst p + snd p) t) (combine (offsets sizes) sizes).
+Proof. exact @array_split_offsets. Qed.
+Print Assumptions C08_array_split_is_slices.
 
 (* Non-vacuity: concrete trees with negative axes meet the hypotheses and compute non-trivial values. *)
 Example C08_example_stack_neg_axis :
